@@ -152,6 +152,19 @@ def auto_connect_runs(ctx):
             d = landev.LanDevice(loop, net, acdev.ACModel(state=state), version=3, token=tok, key=key, seed=k)
             if k % 3 == 2:
                 d.reply_filter = lambda kind, tr, packets: [] if kind == "hs_bad" else packets      # this unit stays silent when it does not know the token
+            elif k % 6 == 1:
+                # this unit answers an unknown token with its error packet only after 2.5 s: the request and its retransmission are both answered late
+                seen_bad = {}
+
+                def late(kind, tr, packets, loop=loop, seen_bad=seen_bad):
+                    if kind == "hs_bad":
+                        n = seen_bad.get(tr.cid, 0)
+                        seen_bad[tr.cid] = n + 1
+                        for q in packets:
+                            loop.call_later(2.5 if n == 0 else 0.5, tr.feed, q)       # the answers to the request and to its retransmission arrive together
+                        return []
+                    return packets
+                d.reply_filter = late
         v = disc.run_discovery([(0.3, ip, 6445, build(rng, ident, ip, 3))], auto_connect=True, tcp_devices=tcp, cloud_client=srv.client,
                                account=account, password=password)
         n += 1
